@@ -177,11 +177,16 @@ AddClipPath ==
                        \o (IF MaybeN(140, 15) THEN << <<"clip-rule", PickN(141, {"nonzero","evenodd"}), 0>> >> ELSE <<>>),
               g |-> <<>>, ref |-> ""])
 
+HasA2(at, name) == \E k \in 1..Len(at) : at[k][1] = name
 AddUse ==
   /\ LET targets == Ids(ShapeTags \cup {"g", "use"}) \ OpenIds
      IN /\ targets # {}
         /\ Push([d |-> Depth, tag |-> "use", id |-> IF MaybeN(142, 20) THEN NewId ELSE "",
-                 at |-> (IF InClip THEN <<>> ELSE PaintAttrs(Len(nodes)) \o StrokeAttrs(Len(nodes) + 50) \o ClipAttr) \o TfAttr(Len(nodes)),
+                 at |-> (IF InClip THEN <<>>
+                         ELSE PaintAttrs(Len(nodes)) \o StrokeAttrs(Len(nodes) + 50) \o ClipAttr
+                              \o (IF Focus = "stroke" /\ ~HasA2(PaintAttrs(Len(nodes)), "opacity")
+                                  THEN Opt(470, "opacity", {1, 2}, 45) ELSE <<>>))
+                      \o TfAttr(Len(nodes)),
                  g |-> IF MaybeN(143, 50) THEN <<0, 0>> ELSE <<PickN(144, {-2, 3, 5}), PickN(145, {0, 1, 4})>>,
                  ref |-> PickN(146, targets)])
 
@@ -279,7 +284,7 @@ Kind(n_) ==
       W == CASE Focus = "paint"  -> <<40, 28, 0, 0, 8, 0, 18, 0, 0>>
              [] Focus = "clip"   -> <<38, 14, 4, 18, 8, 0, 14, 0, 0>>
              [] Focus = "struct" -> <<40, 16, 5, 0, 12, 9, 14, 0, 0>>
-             [] Focus = "stroke" -> <<52, 18, 0, 0, 6, 0, 16, 0, 0>>
+             [] Focus = "stroke" -> <<46, 16, 0, 0, 14, 0, 16, 0, 0>>
              [] Focus = "grad"   -> <<40, 14, 4, 0, 6, 0, 14, 18, 0>>
              [] OTHER            -> <<30, 12, 5, 7, 8, 5, 13, 9, 7>>
       c == [k \in 1..9 |-> IF k = 1 THEN W[1] ELSE 0]
